@@ -1152,6 +1152,13 @@ func c08Exec(c *kit.Case, mon *kit.Monitor, cs c08Case) {
 	// dimensions rather than by the byte counts (a JBIG2 page of a few KiB can
 	// legitimately cost some tenths of a second), measured on a loaded machine.
 	cpuBound := 10.0 + 2e-6*float64(in+out)
+	if cs.class == "bomb-behind-filter" || cs.class == "compression-bomb" {
+		// these classes inflate up to 128 MiB per layer before the budget (or
+		// the last decoder) stops them: that intermediate output is work the
+		// statement allows, and it is not part of "out" (6 s were measured on a
+		// machine at load 60)
+		cpuBound += 20
+	}
 	if u.CPU > cpuBound {
 		c.Violationf("cpu/"+cs.class+"/"+filt, "%s\nCPU time %.2f s exceeds 10 s + 2 us x (input + output) = %.2f s", ctx, u.CPU, cpuBound)
 	}
